@@ -255,8 +255,20 @@ pub fn load(args: &[String]) {
     let n: i64 = args[1].parse().unwrap();
     let mut rep = Report::new();
     let rt = tokio::runtime::Builder::new_multi_thread().worker_threads(2).enable_all().build().unwrap();
-    let src = "context ingest\ncontext analytics\n\nstream Filtered = Reading\n    .context(ingest)\n    .where(v >= 0)\n    .emit(seq: seq, v: v)\n\nstream Analysis = Filtered\n    .context(analytics)\n    .where(v >= 1)\n    .emit(seq: seq)\n";
-    let plain = "stream Filtered = Reading\n    .where(v >= 0)\n    .emit(seq: seq, v: v)\n\nstream Analysis = Filtered\n    .where(v >= 1)\n    .emit(seq: seq)\n";
+    // the consumer in the second context names its upstream stream in several ways (each has a single upstream producer):
+    // bare identifier, aliased single step, two-step sequence over the upstream stream, Kleene over it
+    let shape = args.get(2).map(|s| s.as_str()).unwrap_or("ident").to_string();
+    let head = "stream Filtered = Reading\n{CTX1}    .where(v >= 0)\n    .emit(seq: seq, v: v)\n\n";
+    let consumer = match shape.as_str() {
+        "ident" => "stream Analysis = Filtered\n{CTX2}    .where(v >= 1)\n    .emit(seq: seq)\n",
+        "alias" => "stream Analysis = Filtered as f\n{CTX2}    .emit(seq: f.seq)\n",
+        "seq" => "stream Analysis = Filtered as x\n    -> Filtered where v > x.v as y\n{CTX2}    .emit(seq: y.seq)\n",
+        "kleene" => "stream Analysis = Filtered as x\n    -> all Filtered where v == 1 as y\n    -> Filtered where v == 2 as z\n{CTX2}    .emit(seq: z.seq)\n",
+        s => panic!("shape {s}"),
+    };
+    let src_s = format!("context ingest\ncontext analytics\n\n{}{}", head.replace("{CTX1}", "    .context(ingest)\n"), consumer.replace("{CTX2}", "    .context(analytics)\n"));
+    let plain_s = format!("{}{}", head.replace("{CTX1}", ""), consumer.replace("{CTX2}", ""));
+    let (src, plain) = (src_s.as_str(), plain_s.as_str());
     let events: Vec<Event> = (0..n).map(|i| Event::new("Reading").with_field("seq", i).with_field("v", i % 3)).collect();
     let collect = |outs: Vec<Event>| -> (Vec<i64>, Vec<i64>) {
         let mut f = vec![]; let mut a = vec![];
@@ -292,7 +304,7 @@ pub fn load(args: &[String]) {
         orch.shutdown();
         Ok::<_, String>(v)
     }));
-    let case = json!({"events": n, "program": "Reading -> Filtered (context ingest) -> Analysis (context analytics)"});
+    let case = json!({"events": n, "shape": shape, "program": src});
     rep.case(&case, true);
     rep.case(&json!({"events": n, "reference": "same program without contexts"}), true);
     match r {
